@@ -141,6 +141,28 @@ func configImmutable(c *Ctx, pkg string) {
 		}
 	}
 	c.Floor("configuration fields of "+pkg, n, 8)
+	// the built policy object itself: its fields are set when it is built and never afterwards (the breaker's
+	// state is the one documented exception, owned by transitionTo under the mutex)
+	policyType := map[string]string{"retrypolicy": "retryPolicy", "hedgepolicy": "hedgePolicy", "fallback": "fallback", "timeout": "timeout",
+		"cachepolicy": "cachePolicy", "ratelimiter": "rateLimiter", "bulkhead": "bulkhead", "circuitbreaker": "circuitBreaker"}[pkg]
+	for _, f := range c.P.structFields(pkg, policyType) {
+		fr := FieldRef{Type: policyType, Pkg: pkg, Field: f.Name()}
+		ok := true
+		for _, w := range ix.Writers(fr) {
+			top := w
+			for top.Parent() != nil {
+				top = top.Parent()
+			}
+			if isConstructorLike(top) || isBuilderMethod(top) || (pkg == "circuitbreaker" && f.Name() == "state" && top.Name() == "transitionTo") {
+				continue
+			}
+			ok = false
+			c.Fail(fr.String(), c.P.FuncPos(w), fmt.Sprintf("field %s of the built policy is written by %s after construction: shared policy instances must not be modified by executions", fr, c.fn(w)), "")
+		}
+		if ok {
+			c.Ok(fr.String(), "", "set only at construction")
+		}
+	}
 }
 
 // buildCopiesConfig: the policies whose Build takes a snapshot of the builder's configuration (retry, hedge,
